@@ -17,7 +17,7 @@ structure Queue.Ok (q : Queue) : Prop where
   not_over : q.overfull = false
 
 theorem Queue.new_ok (n : Nat) : (Queue.new n).Ok :=
-  ⟨by unfold Queue.new; omega, by unfold Queue.new; simp, rfl⟩
+  ⟨by show 0 < n * 17 / 16 + 4; omega, by show ([] : List IR).length ≤ n * 17 / 16 + 4; simp, rfl⟩
 
 theorem Queue.push_ok (q : Queue) (v : IR) (h : q.Ok) :
     (q.push v).Ok ∧ (q.push v).items = q.items ++ [v] := by
@@ -101,13 +101,24 @@ structure Rep (mb : Bytes) (p : Pair) (c : Nat) : Prop where
 
 theorem mkPair_rep (i0 i1 : Bytes) : Rep (i0 ++ i1) (mkPair i0 i1) 0 := by
   refine ⟨?_, ?_, fun _ => rfl, fun _ => by simp [mkPair]⟩
-  · simp [Pair.bytes, Pair.len, mkPair]
+  · simp only [Pair.bytes, Pair.len, mkPair, List.drop_zero]
+    rw [List.take_of_length_le (by simp)]
   · simp [Pair.len, mkPair]
 
 theorem Pair.splitAt_len (p : Pair) (loc : Nat) :
     (p.splitAt loc).1.len = min loc p.len ∧ (p.splitAt loc).2.len = p.len - loc := by
   unfold Pair.splitAt Pair.len
   split <;> simp <;> omega
+
+theorem take_min_len (l : List Nat) (o : Nat) : l.take (min o l.length) = l.take o := by
+  by_cases hk : o ≤ l.length
+  · rw [Nat.min_eq_left hk]
+  · rw [Nat.min_eq_right (by omega), List.take_of_length_le (Nat.le_refl _), List.take_of_length_le (by omega)]
+
+theorem drop_min_len (l : List Nat) (o : Nat) : l.drop (min o l.length) = l.drop o := by
+  by_cases hk : o ≤ l.length
+  · rw [Nat.min_eq_left hk]
+  · rw [Nat.min_eq_right (by omega), List.drop_eq_nil_of_le (Nat.le_refl _), List.drop_eq_nil_of_le (by omega)]
 
 theorem Pair.splitAt_bytes (p : Pair) (loc : Nat) :
     (p.splitAt loc).1.bytes = p.bytes.take loc ∧ (p.splitAt loc).2.bytes = p.bytes.drop loc := by
@@ -116,15 +127,8 @@ theorem Pair.splitAt_bytes (p : Pair) (loc : Nat) :
   · rename_i h
     simp only [List.nil_append]
     constructor
-    · rw [List.take_append]
-      rw [List.take_of_length_le h]
-      congr 1
-      rw [List.take_take]
-    · rw [List.drop_append]
-      rw [List.drop_eq_nil_of_le h, List.nil_append]
-      by_cases hk : loc - p.a.data.length ≤ p.b.data.length
-      · rw [Nat.min_eq_left hk]
-      · rw [Nat.min_eq_right (by omega), List.drop_eq_nil_of_le (by omega), List.drop_eq_nil_of_le (Nat.le_refl _)]
+    · rw [List.take_append, List.take_of_length_le h, take_min_len]
+    · rw [List.drop_append, List.drop_eq_nil_of_le h, List.nil_append, drop_min_len]
   · rename_i h
     simp only [List.append_nil]
     constructor
@@ -140,7 +144,6 @@ theorem Rep.splitAt {mb : Bytes} {p : Pair} {c : Nat} (h : Rep mb p c) (loc : Na
   constructor
   · refine ⟨?_, by rw [l1]; omega, ?_, ?_⟩
     · rw [b1, l1, hb, List.take_take, Nat.min_eq_left hl]
-      congr 1; omega
     · unfold Pair.splitAt; split
       · exact h.offA
       · intro _; exact h.offA (by intro hnil; rename_i hh; rw [hnil] at hh; simp at hh)
@@ -173,47 +176,52 @@ theorem Rep.splitAt {mb : Bytes} {p : Pair} {c : Nat} (h : Rep mb p c) (loc : Na
         simp
         omega
 
+
+theorem Rep.a_eq {mb : Bytes} {p : Pair} {c : Nat} (h : Rep mb p c) :
+    p.a.data = (mb.drop c).take p.a.data.length := by
+  have hb := h.bytes
+  have hlen : p.len = p.a.data.length + p.b.data.length := rfl
+  have := congrArg (List.take p.a.data.length) hb
+  rw [Pair.bytes, List.take_left, List.take_take, Nat.min_eq_left (by omega)] at this
+  exact this
+
+theorem Rep.b_eq {mb : Bytes} {p : Pair} {c : Nat} (h : Rep mb p c) :
+    p.b.data = (mb.drop (c + p.a.data.length)).take p.b.data.length := by
+  have hb := h.bytes
+  have hlen : p.len = p.a.data.length + p.b.data.length := rfl
+  have := congrArg (List.drop p.a.data.length) hb
+  rw [Pair.bytes, List.drop_left, List.drop_take, List.drop_drop, hlen, Nat.add_sub_cancel_left] at this
+  exact this
+
 /-- the literals pushed for a represented pair replay to exactly its bytes -/
 theorem pushLiterals_replay (w : WordOracle) (window : Nat) (mb : Bytes) (he : Bool) (p : Pair) (c : Nat)
     (h : Rep mb p c) (h32 : mb.length < 2 ^ 32) (out : Bytes) :
     replayIR w window mb (pushLiterals he p) out = some (out ++ p.bytes) := by
-  have hb := h.bytes
   have hbound := h.bound
   have hlen : p.len = p.a.data.length + p.b.data.length := rfl
-  have ha : p.a.data = (mb.drop c).take p.a.data.length := by
-    have := congrArg (List.take p.a.data.length) hb
-    rw [Pair.bytes, List.take_left, List.take_take, Nat.min_eq_left (by omega)] at this
-    exact this
-  have hbb : p.b.data = (mb.drop (c + p.a.data.length)).take p.b.data.length := by
-    have := congrArg (List.drop p.a.data.length) hb
-    rw [Pair.bytes, List.drop_left, List.drop_take, List.drop_drop] at this
-    rw [this, hlen]
-    congr 1
-    omega
+  have ha := h.a_eq
+  have hbb := h.b_eq
   unfold pushLiterals
   by_cases h1 : p.a.data.length = 0 <;> by_cases h2 : p.b.data.length = 0
-  · simp only [h1, h2, ne_eq, not_true_eq_false, if_false, List.append_nil, replayIR]
-    have e1 : p.a.data = [] := List.length_eq_zero_iff.mp h1
+  · have e1 : p.a.data = [] := List.length_eq_zero_iff.mp h1
     have e2 : p.b.data = [] := List.length_eq_zero_iff.mp h2
-    simp [Pair.bytes, e1, e2]
+    simp [replayIR, Pair.bytes, e1, e2]
   · have e1 : p.a.data = [] := List.length_eq_zero_iff.mp h1
     have hne : p.b.data ≠ [] := by intro hh; rw [hh] at h2; simp at h2
     simp only [h1, h2, ne_eq, not_true_eq_false, not_false_eq_true, if_false, if_true, List.nil_append, replayIR]
-    rw [Nat.mod_eq_of_lt (by omega), h.offB hne, if_pos (by omega)]
-    simp only [Pair.bytes, e1, List.nil_append]
-    rw [h1] at hbb
-    rw [h1, ← hbb]
+    rw [Nat.mod_eq_of_lt (by omega), h.offB hne, if_pos (by omega), ← hbb]
+    simp [Pair.bytes, e1]
   · have e2 : p.b.data = [] := List.length_eq_zero_iff.mp h2
     have hne : p.a.data ≠ [] := by intro hh; rw [hh] at h1; simp at h1
     simp only [h1, h2, ne_eq, not_true_eq_false, not_false_eq_true, if_false, if_true, List.append_nil, replayIR]
-    rw [Nat.mod_eq_of_lt (by omega), h.offA hne, if_pos (by omega)]
-    simp only [Pair.bytes, e2, List.append_nil]
-    rw [← ha]
+    rw [Nat.mod_eq_of_lt (by omega), h.offA hne, if_pos (by omega), ← ha]
+    simp [Pair.bytes, e2]
   · have hneA : p.a.data ≠ [] := by intro hh; rw [hh] at h1; simp at h1
     have hneB : p.b.data ≠ [] := by intro hh; rw [hh] at h2; simp at h2
     simp only [h1, h2, ne_eq, not_false_eq_true, if_true, List.cons_append, List.nil_append, replayIR]
     rw [Nat.mod_eq_of_lt (by omega), Nat.mod_eq_of_lt (by omega), h.offA hneA, h.offB hneB,
       if_pos (by omega), if_pos (by omega), ← ha, ← hbb]
     simp [Pair.bytes]
+
 
 end BV.Recoder
